@@ -330,3 +330,9 @@ UNITS.append(Unit("C18", "jsonargparse._core:ArgumentParser.save", svc_setup, sv
 from contracts.c01 import LEMMAS as _C01_LEMMAS  # noqa: E402
 import dataclasses as _dc  # noqa: E402
 LEMMAS = [_dc.replace(l, name=l.name.replace("C01/", "C18/")) for l in _C01_LEMMAS]
+
+
+# what save writes is the configuration without the loader's bookkeeping (strip_meta / recreate_branches): a __path__ left inside a list
+# element makes the main dump fail after the sub-files were written
+from contracts.share import shared as _shared18  # noqa: E402
+UNITS += _shared18("C18", "contracts.c08", "_namespace:recreate_branches", "_namespace:strip_meta")
